@@ -5,7 +5,7 @@
 (* with its limb count n; B = 2^64.  PostN(f, i, o): i = inputs as logged  *)
 (* before the call, o = outputs as logged after it.                        *)
 (***************************************************************************)
-EXTENDS Naturals, Integers, Sequences, BigZ
+EXTENDS Naturals, Integers, Sequences, BigZ, IOFormat, PrintfLayout
 
 LOCAL W == 64
 LOCAL Bn(n) == ZPow2(W * n)
@@ -101,6 +101,70 @@ PostN(f, i, o) ==
      [] f = "mpn_sqrtrem_null" -> /\ o.s = ZISqrt(i.a) /\ Bool(o.rn, ZMul(o.s, o.s) # i.a)
      [] f = "mpn_perfect_square_p" -> Bool(o.ret, ZMul(ZISqrt(i.a), ZISqrt(i.a)) = i.a)
         \* ---- C06
+        \* ---- C17: documented external formats and stream faults (see IOFormat.tla)
+     [] f = "mpz_export" ->
+           /\ o.count = ExportCount(i.v, i.size, i.nails)
+           /\ o.bytes = ExportBytes(i.v, i.order, i.size, IF i.endian = 0 THEN -1 ELSE i.endian, i.nails)
+           /\ o.guard = 1                                              \* nothing written outside count*size bytes
+     [] f = "mpz_import" ->
+           /\ o.v = ImportValue(i.bytes, i.count, i.order, i.size, IF i.endian = 0 THEN -1 ELSE i.endian, i.nails) /\ o.wf = 1
+     [] f = "mpz_out_raw" ->       \* fault = -1: none; otherwise the stream accepts only the first `fault` bytes
+           LET full == RawBytes(i.v)  n == Len(full) \div 2 IN
+           IF i.fault < 0 \/ i.fault >= n THEN o.ret = n /\ o.bytes = full
+           ELSE o.ret = 0 /\ Len(o.bytes) <= 2 * i.fault /\ o.bytes = SubSeq(full, 1, Len(o.bytes))
+     [] f = "mpz_inp_raw" ->
+           LET p == RawParse(i.bytes) IN
+           /\ o.wf = 1                                                 \* destination well formed whatever the stream held
+           /\ IF p.ok THEN o.ret = p.n /\ o.v = p.v ELSE o.ret = 0
+     [] f = "mpz_out_str" ->
+           LET full == GetStrText(i.v, i.base) IN
+           IF i.fault < 0 \/ i.fault >= Len(full) THEN o.ret = Len(full) /\ o.text = full
+           ELSE o.ret = 0 /\ Len(o.text) <= i.fault /\ o.text = SubSeq(full, 1, Len(o.text))
+     [] f = "mpz_inp_str" ->
+           LET p == InpStr(i.text, i.base) IN
+           /\ o.wf = 1 /\ IF p.ok THEN o.ret = p.n /\ o.v = p.v ELSE o.ret = 0
+     [] f = "mpq_out_str" ->
+           LET full == IF i.d = "1" THEN GetStrText(i.n, i.base) ELSE GetStrText(i.n, i.base) \o "/" \o GetStrText(i.d, i.base) IN
+           IF i.fault < 0 \/ i.fault >= Len(full) THEN o.ret = Len(full) /\ o.text = full
+           ELSE o.ret = 0 /\ o.text = SubSeq(full, 1, Len(o.text))
+     [] f = "mpq_inp_str" ->      \* what mpq_out_str wrote (possibly truncated)
+           /\ o.wf = 1
+           /\ (i.whole = 1 => o.ret = Len(i.text) /\ o.n = i.n /\ o.d = i.d)
+           /\ (i.whole = 0 /\ o.ret # 0 => o.ret <= Len(i.text))
+     [] f = "mpf_out_inp_str" ->  \* round trip through a stream in a power-of-two base: same value and byte counts
+           /\ (i.fault < 0 => o.wret = Len(o.text) /\ o.wret > 0 /\ o.rret = o.wret /\ o.same = 1)
+           /\ (i.fault >= 0 /\ i.fault < i.full => o.wret = 0)
+     [] f = "gmp_fprintf" ->
+           IF i.fault < 0 \/ i.fault >= Len(i.expect) THEN o.ret = Len(i.expect) /\ o.text = i.expect
+           ELSE o.ret = -1
+        \* ---- C18: formatted output / input (see PrintfLayout.tla)
+     [] f = "gmp_printf_z" ->       \* "%<flags><width>.<prec>Z<conv>" ; o.g = gmp_snprintf text, o.c = C library text for the equal long ("" if not comparable)
+           LET fl == [k \in 1..Len(i.fl) |-> SubSeq(i.fl, k, k)]
+               want == GmpLayout(fl, i.w, i.p, i.conv, i.v)
+               fr == FlagRec(fl)
+               \* combinations to which C gives a meaning: d/i any value; o/x/X non-negative and without the sign flags (MPIR's o/x/X are
+               \* signed, so '+' and ' ' apply there: documented extension); '#' only with o/x/X
+               cmeaning == /\ ZLe("-8000000000000000", i.v) /\ ZLe(i.v, "7fffffffffffffff")
+                           /\ IF i.conv \in {"d", "i"} THEN ~fr.hash ELSE ~ZIsNeg(i.v) /\ ~fr.plus /\ ~fr.space
+           IN  /\ o.g = want /\ o.ret = Len(want)
+               /\ (cmeaning /\ i.havec = 1) => /\ o.c = CPrintf(FlagRec(fl), i.w, i.p, i.conv, i.v)        \* the specification agrees with the platform's C library
+                                                 /\ (~DocumentedDeviation(fl, i.p, i.v) => o.g = o.c)        \* and MPIR is byte-identical to it
+     [] f = "gmp_snprintf" ->       \* never more than size bytes, returns the full length
+           /\ o.ret = Len(i.expect) /\ o.guard = 1
+           /\ (i.size > 0 => o.buf = SubSeq(i.expect, 1, IF i.size - 1 < Len(i.expect) THEN i.size - 1 ELSE Len(i.expect)))
+     [] f = "gmp_asprintf" -> o.ret = Len(i.expect) /\ o.text = i.expect /\ o.blksz = Len(i.expect) + 1
+     [] f = "gmp_printf_mixed" -> o.g = i.expect /\ o.ret = Len(i.expect)
+     [] f = "gmp_sscanf" -> o.ret = i.nfields /\ o.v = i.v
+        \* ---- C19: ranges of the mpn-level generators and whole-sample statistics
+     [] f \in {"mpn_randomb", "mpn_rrandom"} -> ZLimbCount(o.r) = i.n                      \* exactly n limbs, top limb non-zero
+     [] f = "mpn_urandomb" -> ZBitLen(o.r) <= i.bits
+     [] f = "mpn_urandomm" -> ZLt(o.r, i.m)
+     [] f = "rand_stats" ->      \* i.bits-bit draws (a TLA+ sequence of numerals), N = Len
+           LET N == Len(i.draws) IN
+           /\ \A b \in 0..(i.bits - 1) : LET c == SeqBitOnes(i.draws, b) IN 4 * c >= N /\ 4 * c <= 3 * N          \* no bit position is grossly biased
+           /\ \A b \in 0..(i.bits - 1), k \in 0..10 : LET lag == 2 ^ k  c == SeqBitAgree(i.draws, b, lag) IN
+                  (N - lag >= 256) => 4 * c >= (N - lag) /\ 4 * c <= 3 * (N - lag)                               \* no short period in any bit (weak LC low bits)
+           /\ (i.bits >= 4 => \A v \in 0..15 : LET c == SeqBucket(i.draws, i.bits - 4, ZFromInt(v)) IN 32 * c >= N /\ 8 * c <= N)   \* 16 value buckets within a factor 2
      [] f = "mpn_get_str" ->      \* digit values written through the 62-character alphabet by the harness; leading zeros permitted
            LET A62 == "0123456789ABCDEFGHIJKLMNOPQRSTUVWXYZabcdefghijklmnopqrstuvwxyz" IN
            /\ Len(o.s) = o.ret /\ o.ret >= 1
